@@ -146,10 +146,34 @@ def run_history(ctx, program, history, tag="random"):
         return out
 
     with tap:
+        seen_runs, seen_distinct, n_events = {}, {}, 0
+
+        def per_step_bound(step):
+            """The bound, step by step: the body runs a step adds to a dataset are at most the NEW assignments that step
+            brought (an assignment met before was computed then - all probes are total, so it was stored)."""
+            nonlocal n_events
+            for e in log.events[n_events:]:
+                if e[1] == "body":
+                    did_, t_ = e[2][2:].split(":", 1)
+                    if did_ in nocache:
+                        continue
+                    g_ = did_ if t_ == "default" or (did_, t_) not in G.overload_ds else f"{did_}/{t_}"
+                    seen_runs[g_] = seen_runs.get(g_, 0) + 1
+            n_events = len(log.events)
+            for g_, n_ in seen_runs.items():
+                if n_ > len(assignments.get(g_, ())):
+                    return g_, n_, len(assignments.get(g_, ()))
+            return None
+
         for step, o in enumerate(history):
             got = observe(G.root.evaluate, copy.deepcopy(o))
             ctx.evaluations += 1
             refresh_owner()
+            over = per_step_bound(step)
+            if over:
+                ctx.violation("runs-exceed-distinct-assignments", f"step {step}: by now the body of dataset {over[0]} has run {over[1]} times but the dataset was evaluated under only {over[2]} distinct "
+                              f"assignments of the options it can read", {"program": program, "history": history[: step + 1], "pid": over[0], "runs": over[1], "distinct": over[2], "source": tag})
+                return
             if got[0] != "ok":
                 continue
             rng = case_rng(ctx, step)
